@@ -262,10 +262,24 @@ StylesheetRoot::process(
 
     const XPathExecutionContext::CurrentNodePushAndPop  theCurrentNodePushAndPop(executionContext, sourceTree);
 
-    // Output the action of the found root rule.  All processing
-    // occurs from here.
-    
-    rootRule->execute(executionContext);
+    {
+        // The root rule is instantiated for a node list that contains
+        // just the root node (XSLT 1.0, section 5.1), so position()
+        // and last() are 1 there.
+        typedef StylesheetExecutionContext::BorrowReturnMutableNodeRefList  BorrowReturnMutableNodeRefList;
+
+        BorrowReturnMutableNodeRefList  theRootNodeList(executionContext);
+
+        theRootNodeList->addNode(sourceTree);
+
+        const XPathExecutionContext::ContextNodeListPushAndPop  theContextNodeListPushAndPop(
+                    executionContext,
+                    *theRootNodeList);
+
+        // Output the action of the found root rule.  All processing
+        // occurs from here.
+        rootRule->execute(executionContext);
+    }
 
     // At this point, anything transient during the tranformation
     // may have been deleted, so we may not refer to anything the
